@@ -8,7 +8,9 @@ META = dict(
                 "class product and prints, per case, the observables the specification demands; every case is executed on the real "
                 "code with real Ed25519/secp256k1/ECDSA/RSA-2048 keys: creation result, byte-stable re-marshalling, Validate / "
                 "ValidateWithName / Validator.Validate verdicts, every accessor (expiry to the nanosecond, metadata kinds and values), "
-                "presence and content of the legacy fields, CBOR representation of the sequence number and canonical key order."),
+                "presence and content of the legacy fields, CBOR representation of the sequence number and canonical key order; "
+                "records padded to exactly MaxRecordSize-1 / MaxRecordSize / +1 / +1024 bytes must be accepted resp. refused "
+                "(ErrRecordSize) by Validate, UnmarshalRecord and Validator.Validate alike."),
     level_note=("Thin specification (identity accessors + reject rules + key availability); the class -> value projection of the harness "
                 "is trusted; classes, not all 2^64 values."),
     technique="class-product enumeration by TLC with spec-computed expected observables, replayed on the real code",
@@ -42,12 +44,13 @@ def run(ctx):
                         "a record whose key is neither embedded nor inlined in the name validates through a KeyBook only "
                         "(ValidateWithName is expected to fail for RSA/ECDSA with WithPublicKey(false))"]
     ctx.cov["rule"] = ("one case per element of kt(4) x scalars(quick: 12 covering triples of seq/eol/ttl, thorough: 6x4x4) x accepted "
-                       "metadata(8) x v1compat(2) x embed(3) x value(3), plus rejected metadata(12) x kt x v1compat; "
+                       "metadata(8) x v1compat(2) x embed(3) x value(3), plus rejected metadata(12) x kt x v1compat, plus the size boundary "
+                       "family kt(4) x 2 triples x metadata{none,all} x v1compat(2) x embed(3) x size(4) x padding place(3); "
                        "non-trivial = accepted case (full pipeline and all accessors compared)")
     ctx.specdir("IPNS")
     with ThreadPoolExecutor(max_workers=3) as ex:
         f_mc = ex.submit(_mc, ctx, "IPNSRoundTrip.tla", "MCIPNSRoundTrip.cfg" if q else "MCIPNSRoundTripFull.cfg",
-                         ["CreateReject", "CreateOK", "Marshal", "Unmarshal", "Validate"], timeout=2400, workers=4 if q else 8)
+                         ["CreateReject", "CreateOK", "ValidateCreated", "Marshal", "Unmarshal", "UnmarshalRefuse", "Validate"], timeout=2400, workers=4 if q else 8)
         f_g = ex.submit(ctx.tlc_gen, "IPNS", "GenIPNSRoundTrip.tla", "GenIPNSRoundTrip.cfg" if q else "GenIPNSRoundTripFull.cfg", timeout=1800)
         binp = ctx.go_build(PKG, ["ipns/zz_verif_C26_test.go"])
         behs = f_g.result()
@@ -60,6 +63,7 @@ def run(ctx):
             ctx.save_text("replay_driver.out", out[-20000:])
             ctx.broken("replay driver died or was incomplete (rc=%s, summary=%s): %s" % (rc, summ[-1:], out[-1500:]))
             return
+        nviol = 0
         for r in recs:
             if r.get("ok") is not False:
                 continue
@@ -68,7 +72,11 @@ def run(ctx):
             if r.get("harness"):
                 ctx.broken(what)
             else:
-                ctx.violation(what, dict(behaviour=beh, disagreement=r))
+                nviol += 1
+                if nviol <= 25:          # one replay file per violation: a broken tree fails hundreds of cases
+                    ctx.violation(what, dict(behaviour=beh, disagreement=r))
+        if nviol > 25:
+            ctx.log("%d further disagreeing cases not listed" % (nviol - 25))
         ctx.cov["traces_validated_against_impl"] += len(behs)
         ctx.cov["evaluations"] += len(behs)
         for b in behs:
